@@ -429,7 +429,12 @@ func genInput(r *mon.Run, forced []forcedCase, stride, g int) input {
 				l = 0
 			}
 		}
-		return input{b: clip(wrapRData(t, rd, l, true)), class: "rdata:mut-" + kinds + ":" + dnsx.TypeName(t), drive: rng.IntN(40) == 0}
+		drive := rng.IntN(40) == 0
+		class := uint16(1)
+		if rng.IntN(4) == 0 {
+			class = rrClasses[rng.IntN(len(rrClasses))]
+		}
+		return input{b: clip(wrapRDataClass(t, class, rd, l, true)), class: "rdata:mut-" + kinds + ":" + dnsx.TypeName(t), drive: drive}
 	case k < 15:
 		return input{b: validPacket(rng, true), class: "resolver:valid", drive: rng.IntN(8) == 0}
 	case k < 17:
